@@ -4,7 +4,7 @@ Model: `Model/Route.lean` (the code after the three `fix:` commits F12, F12b, F1
 Quantifiers: every pattern value `Pat` (scheme?, absolute, segments) subject to the stated decidable side
 conditions, every parameter map, every URI `(scheme?, path)`, every byte string.
 -/
-import SwimVerif.Proofs.RouteParse
+import SwimVerif.Proofs.RoutePlane
 
 set_option linter.unusedVariables false
 set_option linter.unusedSimpArgs false
@@ -216,6 +216,17 @@ example : (parsePattern [97, 58, 49, 58, 47, 58, 120]).toOption = some ⟨some [
 theorem C18_parse_injective (s1 s2 : Bytes) (p : Pat) (h1 : parsePattern s1 = .ok p) (h2 : parsePattern s2 = .ok p) :
     s1 = s2 := (render_parsePattern s1 p h1).symm.trans (render_parsePattern s2 p h2)
 
+/-- The image of `RoutePattern::parse` is exactly the set of `renderable` values: `parse` and `render` are mutually
+inverse bijections between accepted pattern texts and renderable pattern values (second automaton invariant,
+`Proofs/RouteImage.lean`). -/
+theorem C18_parse_image (p : Pat) : (∃ s, parsePattern s = .ok p) ↔ p.renderable = true := parse_image p
+
+theorem C18_parse_renderable (s : Bytes) (p : Pat) (h : parsePattern s = .ok p) : p.renderable = true :=
+  parsePattern_renderable s p h
+
+example : (parsePattern [47, 97, 58, 98, 47, 58, 120]).toOption = some ⟨none, true, [.lit [97, 58, 98], .param [120]]⟩ ∧
+    (Pat.mk none true [.lit [97, 58, 98], .param [120]]).renderable = true := by decide
+
 /-! ## A server that accepted its routes resolves every URI to at most one agent definition -/
 
 /-- The property at the level of the pattern *texts*: two accepted patterns that both match a route string are
@@ -269,5 +280,66 @@ example : buildOk [⟨none, true, [.lit [97, 37, 54, 50]]⟩, ⟨none, true, [.l
 
 example : buildOk [exP, exQ] = false ∧ buildOk [exP, ⟨none, true, [.lit [97], .lit [99]]⟩] = true ∧
     findRoute [exP, ⟨none, true, [.lit [97], .lit [99]]⟩] none [47, 97, 47, 99] = some (1, []) := by decide
+
+/-! ## … stated for the tables a server can actually be given (no side condition)
+
+`RoutePattern` has private fields and `parse` is its only constructor, so the table handed to
+`PlaneBuilder::build` is a list of parsed patterns (`Registered`). -/
+
+/-- FULL STATEMENT. For every table of registered patterns that `PlaneBuilder::build` accepts and every URI
+`(scheme, path)`, at most one entry matches. -/
+theorem C18_plane_at_most_one (ps : List Pat) (hreg : Registered ps) (hb : buildOk ps = true)
+    (sch : Option Bytes) (path : Bytes) : ps.countP (fun p => (p.unapplyUri sch path).isSome) ≤ 1 :=
+  count_matches_le_one ps hb (registered_litNonempty ps hreg) sch path
+
+/-- The same for every route *string* (through the modelled `RouteUri` parser, `unapply_str`). -/
+theorem C18_plane_at_most_one_str (ps : List Pat) (hreg : Registered ps) (hb : buildOk ps = true)
+    (route : Bytes) : ps.countP (fun p => (p.unapplyStr route).isSome) ≤ 1 :=
+  count_matches_str_le_one ps hb (registered_litNonempty ps hreg) route
+
+/-- Starting from the pattern *texts*: if they all parse and `build` accepts, every route string is matched by at
+most one of them. -/
+theorem C18_plane_at_most_one_texts (texts : List Bytes) (ps : List Pat) (hp : parseAll texts = some ps)
+    (hb : buildOk ps = true) (route : Bytes) : ps.countP (fun p => (p.unapplyStr route).isSome) ≤ 1 :=
+  C18_plane_at_most_one_str ps (parseAll_registered texts ps hp) hb route
+
+/-- Index form, and `find_route`: in an accepted table of registered patterns the first match is the only match. -/
+theorem C18_route_unique_registered (ps : List Pat) (hreg : Registered ps) (hb : buildOk ps = true)
+    (sch : Option Bytes) (path : Bytes) (i j : Nat) (p q : Pat) (hi : ps[i]? = some p) (hj : ps[j]? = some q)
+    (hij : i ≠ j) (r : KV) (hp : p.unapplyUri sch path = some r) : q.unapplyUri sch path = none :=
+  C18_route_unique ps hb
+    (fun p hp => by
+      simp only [Pat.litsNonempty, List.all_eq_true]; exact registered_litNonempty ps hreg p hp)
+    sch path i j p q hi hj hij r hp
+
+theorem C18_find_route_is_the_match_registered (ps : List Pat) (hreg : Registered ps) (hb : buildOk ps = true)
+    (sch : Option Bytes) (path : Bytes) (i : Nat) (kv : KV) (h : findRoute ps sch path = some (i, kv)) :
+    ∀ j q, ps[j]? = some q → j ≠ i → q.unapplyUri sch path = none :=
+  C18_find_route_is_the_match ps hb
+    (fun p hp => by
+      simp only [Pat.litsNonempty, List.all_eq_true]; exact registered_litNonempty ps hreg p hp)
+    sch path i kv h
+
+/-- `Registered` is decidable: it is `renderable` entry by entry (`C18_parse_image`). -/
+theorem C18_registered_iff (ps : List Pat) : Registered ps ↔ ∀ p ∈ ps, p.renderable = true :=
+  ⟨fun h p hp => (parse_image p).mp (h p hp), fun h p hp => (parse_image p).mpr (h p hp)⟩
+
+/-- Non-vacuity: `["/:x/b", "/a/c", "swim:/a/:y/z"]` parses, is accepted, and `/a/c` resolves to entry 1 only. -/
+def exTexts : List Bytes :=
+  [[47, 58, 120, 47, 98], [47, 97, 47, 99], [115, 119, 105, 109, 58, 47, 97, 47, 58, 121, 47, 122]]
+def exTable : List Pat :=
+  [⟨none, true, [.param [120], .lit [98]]⟩, ⟨none, true, [.lit [97], .lit [99]]⟩,
+   ⟨some [115, 119, 105, 109], true, [.lit [97], .param [121], .lit [122]]⟩]
+example : parseAll exTexts = some exTable ∧ buildOk exTable = true ∧
+    exTable.countP (fun p => (p.unapplyStr [47, 97, 47, 99]).isSome) = 1 ∧
+    findRoute exTable none [47, 97, 47, 99] = some (1, []) := by decide
+
+/-- The side condition of `C18_route_unique` is needed for raw `Pat` values (and only for those): with an empty
+literal, an absolute and a relative pattern of different lengths both match `/`, and `are_ambiguous` (which compares
+lengths) says no. Such values are not in the image of `parse`. -/
+example : buildOk [⟨none, true, [.lit []]⟩, ⟨none, false, [.lit [], .lit []]⟩] = true ∧
+    ((Pat.mk none true [.lit []]).unapplyUri none [47]).isSome = true ∧
+    ((Pat.mk none false [.lit [], .lit []]).unapplyUri none [47]).isSome = true ∧
+    (Pat.mk none true [.lit []]).renderable = false := by decide
 
 end SwimVerif.Route
